@@ -4,7 +4,7 @@ An operation list is executed in this process, in threads, or in a fresh interpr
 each operation yields one raw observation with printable reprs; intern() turns reprs into small integers so that the
 trace contains only booleans, short strings and ints < 2^31.
 """
-import os, sys, io, json, math, tempfile, threading, subprocess, hashlib
+import os, json, sys, io, json, math, tempfile, threading, subprocess, hashlib
 sys.path.insert(0, os.path.dirname(os.path.abspath(__file__)))
 import vlib
 
@@ -129,6 +129,18 @@ def run_ops(ops, observe_env=False, tag=""):
     from cm_colors import Color, ColorPair, make_readable_bulk
     objs = {}
     out = []
+    shared = {}
+
+    def D(v):
+        """decode; a LIST value that occurs several times in one behaviour is one and the same object every time (a caller
+        who keeps his colour in a variable) - so an implementation that writes into its argument is seen by the later calls"""
+        if isinstance(v, dict) and "l" in v:
+            key = json.dumps(v, sort_keys=True)
+            if key not in shared:
+                shared[key] = dec(v)
+            return shared[key]
+        return dec(v)
+
     for op in ops:
         kind = op[0]
         if kind in ("new", "color"):
@@ -136,10 +148,12 @@ def run_ops(ops, observe_env=False, tag=""):
             ev = {"op": "new", "obj": oid, "raised": "", "valid": False, "rgbOk": False, "rgbNone": False, "errNonEmpty": False}
             try:
                 if kind == "new":
-                    text, bg, large = dec(op[2]), dec(op[3]), dec(op[4])
-                    ev["keyrepr"] = krepr("pair", text, bg, large)
+                    text, bg, large = D(op[2]), D(op[3]), dec(op[4])
+                    ev["keyrepr"] = krepr("pair", dec(op[2]), dec(op[3]), large)      # (the key is the value as GIVEN in the history)
+                    arg_before = (repr(dec(op[2])), repr(dec(op[3])))
                     with EnvWatch(observe_env) as w:
                         o = ColorPair(text, bg, large)
+                    ev["_args"] = (text, bg, arg_before)
                     # the three accessors are read in a rotating order (what an accessor says must not depend on which
                     # one was touched first on a fresh object)
                     parts = [o.text, o.bg]
@@ -154,22 +168,28 @@ def run_ops(ops, observe_env=False, tag=""):
                     ev["errNonEmpty"] = (not valid) and len(errs) > 0 and all(isinstance(x, str) and x.strip() != "" for x in errs) \
                         and all(isinstance(x[2], str) and x[2].strip() != "" for x in obs3 if not x[0]) and valid == all(x[0] for x in obs3)
                 else:
-                    val = dec(op[2])
-                    ev["keyrepr"] = krepr("color", val)
+                    val = D(op[2])
+                    ev["keyrepr"] = krepr("color", dec(op[2]))
+                    arg_before = (repr(dec(op[2])), "")
                     with EnvWatch(observe_env) as w:
                         o = Color(val)
+                    ev["_args"] = (val, "", arg_before)
                     valid, rgb0, err0 = _observe_color(o, oid % 3)
                     ev["valid"] = valid
                     ev["rgbOk"] = is_rgb_ints(rgb0) if valid else False
                     ev["rgbNone"] = (not valid) and rgb0 is None
                     ev["errNonEmpty"] = (not valid) and isinstance(err0, str) and err0.strip() != ""
                 objs[oid] = o
+                a_ = ev.pop("_args", None)
+                # the caller's own objects are as he passed them (checked after construction AND after the accessors were read)
+                ev["argSame"] = a_ is None or (repr(a_[0]), repr(a_[1]) if a_[2][1] != "" else "") == a_[2]
                 ev["dout"], ev["newFiles"], ev["modFiles"] = w.dout, w.new, w.mod
             except BaseException as ex:
                 if isinstance(ex, (KeyboardInterrupt, SystemExit)):
                     raise
                 ev["raised"] = type(ex).__name__
                 ev.setdefault("keyrepr", krepr("?", op[2] if len(op) > 2 else None))
+                ev.pop("_args", None)
                 ev["dout"], ev["newFiles"], ev["modFiles"] = 0, [], []
             out.append(ev)
         elif kind == "readable":
@@ -215,7 +235,8 @@ def run_ops(ops, observe_env=False, tag=""):
             out.append(ev)
         elif kind == "bulk":
             _, entries, mode, vr, save = op
-            ents = [tuple(dec(x) for x in e) for e in entries]
+            ents = [tuple(D(x) for x in e) for e in entries]
+            ents_before = repr([tuple(dec(x) for x in e) for e in entries])
             ev = {"op": "bulk", "mode": mode, "vr": bool(vr), "save": bool(save), "raised": "", "entries": [], "results": [],
                   "dout": 0, "newFiles": [], "modFiles": []}
             for e in ents:
@@ -234,6 +255,7 @@ def run_ops(ops, observe_env=False, tag=""):
                     kw = {"save_report": True} if save else {}
                     res = make_readable_bulk(ents, mode=mode, very_readable=vr, **kw)
                 ev["dout"], ev["newFiles"], ev["modFiles"] = w.dout, w.new, w.mod
+                ev["argSame"] = repr(ents) == ents_before
                 import pairs as _pairs
                 for j, r in enumerate(res):
                     col, status = (r[0], r[1]) if isinstance(r, tuple) and len(r) == 2 else (None, "malformed")
@@ -301,6 +323,8 @@ def to_events(raw, keys, cols):
     evs = []
     for r in raw:
         e = dict(r)
+        if e["op"] in ("new", "bulk"):
+            e["argSame"] = bool(e.get("argSame", True))
         if e["op"] == "new":
             e["key"] = keys(e.pop("keyrepr"))
         elif e["op"] == "fix":
